@@ -2,6 +2,8 @@ package rig
 
 import (
 	"fmt"
+	"io"
+	"strings"
 
 	"github.com/alttpo/snes/emulator/bus"
 	"github.com/alttpo/snes/emulator/cpu65c816"
@@ -96,6 +98,8 @@ type CPU interface {
 	TriggerIRQ()
 	SetInterrupt(v byte)
 	Disasm() string
+	// Inspect makes read-only calls (Flags, disassembly) and returns a complaint if Flags() disagrees with the flag fields.
+	Inspect() string
 	// SwapBus moves the CPU to another bus with the same memory behind it, where the implementation has a bus pointer
 	// that callers may assign (false otherwise).
 	SwapBus() bool
@@ -371,7 +375,39 @@ func (p *Alt) Reset() (panicked interface{}) {
 }
 func (p *Alt) TriggerIRQ()         { p.C.TriggerIRQ() }
 func (p *Alt) SetInterrupt(v byte) { p.C.Interrupt = v }
-func (p *Alt) Disasm() string      { return "" }
+func (p *Alt) Disasm() string {
+	var b strings.Builder
+	func() {
+		defer func() { recover() }()
+		p.C.DisassembleCurrentPC(&b)
+		p.C.DisassemblePreviousPC(io.Discard)
+	}()
+	return b.String()
+}
+
+// Inspect makes the calls a debugger or a log statement makes between two steps - packed flags, a disassembly of
+// what comes next (and, where offered, of what was just executed) - and says whether the packed flags agree with the
+// exported flag fields; none of it may change what the CPU does next.
+func (p *Primary) Inspect() string {
+	c := p.C
+	want := c.N<<7 | c.V<<6 | c.M<<5 | c.X<<4 | c.D<<3 | c.I<<2 | c.Z<<1 | c.C
+	got := c.Flags()
+	_ = p.Disasm()
+	if got != want {
+		return fmt.Sprintf("Flags() = %02x, the flag fields say %02x", got, want)
+	}
+	return ""
+}
+func (p *Alt) Inspect() string {
+	c := p.C
+	want := c.N<<7 | c.V<<6 | c.M<<5 | c.X<<4 | c.D<<3 | c.I<<2 | c.Z<<1 | c.C
+	got := c.Flags()
+	_ = p.Disasm()
+	if got != want {
+		return fmt.Sprintf("Flags() = %02x, the flag fields say %02x", got, want)
+	}
+	return ""
+}
 
 // DiffArch lists the architectural observables in which two states differ.
 func DiffArch(a, b wdc.Arch) []string {
